@@ -364,7 +364,8 @@ def build_replay(pid, contract, ob_name, meta, model, verdict_raw):
         "from dask import array as da",
         "from pyvc.native import HELPERS, _generic_array, _rotation_from_matrix, _Backend",
         "from pyvc import contract as _C",
-        f"import contracts.{contract.cls.__module__.split('.')[-1]} as _cm",
+        "from pyvc.driver import load_contracts as _load_contracts",
+        "_load_contracts()",
         f"_c = _C.REGISTRY[{contract.key!r}]",
         contract.imports or "",
         f"_mod = importlib.import_module({mod!r})",
@@ -617,7 +618,8 @@ def check_property(pid, tier="quick", seed=0, bounded_hooks=None, only=None, wri
             run.say(f"  failed obligation: {name} (discharged on the reference tree, refuted now; stage {r.get('stage')})")
             run.say(f"  clause: {meta.get('clause')}")
             run.say(f"  solver model: {meta_short}")
-        elif r.get("candidate_only"):
+        elif r.get("candidate_only") or meta.get("step"):
+            # (a failed intermediate proof step is a failed hint, not a property violation)
             run.undecided.append(name)
             run.say(f"UNDECIDED property={pid} obligation={name}: candidate counter-model (weakened query) not "
                     f"confirmed on the real code; replay={path}")
